@@ -4,7 +4,7 @@
    preserved by every host entry, so it describes every reachable state. *)
 From Coq Require Import List Arith Bool Lia.
 Import ListNotations.
-From C07 Require Import Model_C07 Proofs_C07.
+From C07 Require Import Model_C07 Proofs_C07 Pending_C07.
 
 (* every step the embedder / native code can take -- any host entry (script or eval evaluation, [[Call]],
    [[Construct]] of ordinary and native functions, a failing [[Call]], generator resumption) running an
@@ -41,7 +41,8 @@ Check no_engine_panic : forall v e, wf v ->
 Print Assumptions no_engine_panic.
 
 (* the answers of the successful entries of a history are those of the history with the failed entries
-   erased (failed entries that touch no generator object: their only modelled effect would be on the VM) *)
+   erased (failed entries that touch no generator object and leave no new pending exception -- see pending_settled --:
+   their only modelled effect would be on the VM) *)
 Theorem failed_entries_invisible : forall h v, wf v -> failed_genfree v h = true ->
   run_history fx_new v (successes fx_new v h) = filter is_ok (run_history fx_new v h).
 Proof. exact failed_invisible_lemma. Qed.
@@ -60,19 +61,45 @@ Check balanced_refuted :
             frames (fst (run_entry fx_old v e)) = frames v /\ stack (fst (run_entry fx_old v e)) = 9 /\ stack v = 0.
 Print Assumptions balanced_refuted.
 
-(* each of the four repairs is necessary: with any single one missing some entry leaks *)
+(* each of the six repairs is necessary: with any single one missing some entry leaks values (the first five)
+   or leaves an exception pending (the last: an engine error inside a finally block that still has one to rethrow) *)
 Theorem each_fix_needed :
-  stack (fst (run_entry (mkFx false true true true) (init 512 1024) w_throw)) = 9 /\
-  stack (fst (run_entry (mkFx true false true true) (init 512 1024) w_error)) = 5 /\
-  stack (fst (run_entry (mkFx true true false true) (init 512 1024) w_call)) = 2 /\
-  stack (fst (run_entry (mkFx true true true false) (init 512 1024) w_decl)) = 5.
+  stack (fst (run_entry (mkFx false true true true true true) (init 512 1024) w_throw)) = 9 /\
+  stack (fst (run_entry (mkFx true false true true true true) (init 512 1024) w_error)) = 5 /\
+  stack (fst (run_entry (mkFx true true false true true true) (init 512 1024) w_call)) = 2 /\
+  stack (fst (run_entry (mkFx true true true false true true) (init 512 1024) w_decl)) = 5 /\
+  stack (fst (run_entry (mkFx true true true true false true) (init 512 1024) w_modlink)) = 4 /\
+  pending (fst (run_entry (mkFx true true true true true false) (init 512 1024) w_pending)) = true.
 Proof. exact each_fix_needed_lemma. Qed.
 Check each_fix_needed :
-  stack (fst (run_entry (mkFx false true true true) (init 512 1024) w_throw)) = 9 /\
-  stack (fst (run_entry (mkFx true false true true) (init 512 1024) w_error)) = 5 /\
-  stack (fst (run_entry (mkFx true true false true) (init 512 1024) w_call)) = 2 /\
-  stack (fst (run_entry (mkFx true true true false) (init 512 1024) w_decl)) = 5.
+  stack (fst (run_entry (mkFx false true true true true true) (init 512 1024) w_throw)) = 9 /\
+  stack (fst (run_entry (mkFx true false true true true true) (init 512 1024) w_error)) = 5 /\
+  stack (fst (run_entry (mkFx true true false true true true) (init 512 1024) w_call)) = 2 /\
+  stack (fst (run_entry (mkFx true true true false true true) (init 512 1024) w_decl)) = 5 /\
+  stack (fst (run_entry (mkFx true true true true false true) (init 512 1024) w_modlink)) = 4 /\
+  pending (fst (run_entry (mkFx true true true true true false) (init 512 1024) w_pending)) = true.
 Print Assumptions each_fix_needed.
+
+(* pending_exception as state: after any step of Rust code (any host entry, any behaviour tree, any completion) no
+   exception is pending that was not pending before -- unless some frame returned / suspended while one was
+   pending (OUntidy; compiled code consumes it first) or an engine panic was reported (see no_engine_panic) *)
+Theorem pending_settled : forall v last e,
+  let '(v', _, _, o) := run_ract fx_new v last e in
+  pending v' = false \/ pending v' = pending v \/ In OUntidy o \/ panicked o.
+Proof. exact pending_settled_lemma. Qed.
+Check pending_settled : forall v last e,
+  let '(v', _, _, o) := run_ract fx_new v last e in
+  pending v' = false \/ pending v' = pending v \/ In OUntidy o \/ panicked o.
+Print Assumptions pending_settled.
+
+Theorem pending_history_settled : forall rlim slim l,
+  let '(v', o) := run_host fx_new (init rlim slim) l in
+  pending v' = false \/ In OUntidy o \/ panicked o.
+Proof. exact pending_history_lemma. Qed.
+Check pending_history_settled : forall rlim slim l,
+  let '(v', o) := run_host fx_new (init rlim slim) l in
+  pending v' = false \/ In OUntidy o \/ panicked o.
+Print Assumptions pending_history_settled.
 
 (* the unrepaired transitions: under stack_size_limit 12 a failed evaluation makes a later, otherwise
    successful evaluation fail with StackSize; the repaired ones answer as if it had not run *)
